@@ -95,8 +95,11 @@ Proof. exact isolated_query_same_object. Qed.
 
 (* ------------------------------------------------------------------------------------------------ *)
 (* C. the checker run on the implementation's observations is the model of the theorems               *)
+(* norm (C09_Check.v) is the loop normal form: in a trace made of whole [RLock; RUnlock] / [WLock; WUnlock]
+   sections a run of more than two identical consecutive sections is cut to two (the translator unrolls loops
+   0..2 times); every other trace, in particular every nested one, is left unchanged *)
 Theorem C09_checker_trace_sound : forall (name : string) (obs : list op),
-  case_ok (CTrace name obs) = true -> In obs programs.
+  case_ok (CTrace name obs) = true -> exists p, In p programs /\ norm p = norm obs.
 Proof. exact ctrace_ok_in. Qed.
 Theorem C09_checker_deadlock_sound : forall p : list op, model_deadlocks p = true ->
   exists sched s, run {| progs := [p; [WLock; WUnlock]]; readers := 0; ws := WNone |} sched = Some s
